@@ -8,6 +8,7 @@ while args and args[0].startswith('--'):
     if args[0] == '--repo': repo = args[1]; args = args[2:]
     elif args[0] == '--tier': tier = args[1]; args = args[2:]
     else: break
+os.environ.setdefault('PYVC_WIP', '1')
 from pyvc import cli
 os.environ.setdefault('PYVC_SCRATCH', os.path.join(cli.VERIF, '.scratch')); os.makedirs(os.environ['PYVC_SCRATCH'], exist_ok=True)
 cli._setup_repo(repo)
